@@ -308,3 +308,20 @@ REQUIRED_THEOREMS["C11"] += ["C11_updateSeg_refused"]
 REQUIRED_THEOREMS["C03"] += ["C03_checkers_sound", "C03_reach_checked", "C03_reach_checked_prefix"]
 REQUIRED_THEOREMS["C02"] += ["C02_session_valid_checked"]
 REQUIRED_THEOREMS["C01"] += ["C01_user_all_checked"]
+
+# ---- additions of rounds 5-7 (whole-history / composition theorems and new correspondence protocols) ----
+LEVEL_TEXT["C01"] += (" Whole-history form: C01_user_all / C01_undo_restores for every admissible session, also on imported solutions (C01_user_imported) and through the "
+                      "TracksController entry points (C03_controller_reach); primitive actions, inverse() and inverse().inverse() are additionally run through the model's primitive protocol (SP).")
+LEVEL_TEXT["C02"] += " Controller calls: one history entry and one refresh per accepted element (C02_controller_steps); one history of > 1000 entries is unwound completely in every run."
+LEVEL_TEXT["C03"] += " Whole-history: C03_reach (Inv at every reached state), C03_reach_imported, C03_controller_reach; the TracksController methods are modelled (FtModel/Controller.lean, protocol SC) and compared call by call."
+LEVEL_TEXT["C04"] += " Construction is modelled too (FtModel/Construct.lean, protocol CT: which id features get registered / activated / computed, from_tracks) and compared with the real constructors; C04_import_inv: an imported solution satisfies the invariant."
+LEVEL_TEXT["C08"] += " C08_prim_reach: every command list of the primitive protocol on ANY graph (merges, cycles) keeps 'active => current'; plain Tracks objects with merges are driven through the model (SP) and an isolated-mask reference."
+LEVEL_TEXT["C09"] += (" The IoU code paths as written (frame-pair grouping, edge-list removal, leftovers -> 0, masked incremental) are modelled (FtModel/IouFaithful.lean) and proved equal to the per-edge model on any DAG "
+                      "(C09_faithful_bulk_eq, C09_faithful_incr_eq); both are run on every reached state by the drivers; C09_prim_reach for arbitrary graphs.")
+LEVEL_TEXT["C10"] += " Whole-history: C10_registry_reach / C10_unknown_reach / C10_protected_reach for ANY operation list, weak invariant through undo/redo of entries recorded under another registry; construction modelled (C10_construct_*); primitive-level frozen-feature cases."
+LEVEL_TEXT["C11"] += " C11_controller_update_attrs_refused (multi-node controller update rolls back); known finding D18 (unregistered attributes are not restored by a rollback) is reported as KNOWN-FINDING with its own signature."
+LEVEL_TEXT["C14"] += (" Composition: C14_after_session_* (the table of every state an admissible editing session reaches is well-formed, so the round trips hold for it); the display-name CSV layout is modelled "
+                      "(FtModel/ExportDisplay.lean, protocol EXD, C14_csv_display) and the file the real exporter wrote is compared with it.")
+LEVEL_TEXT["C15"] += " C15_after_session, C15_csv_display_subset; large structures (dozens of ancestors, wide id range) are exported through the oracle."
+LEVEL_TEXT["C16"] += " Plain Tracks objects and solutions without a tracklet key are snapshotted around exports and queries as well."
+LEVEL_TEXT["C20"] += " Several listeners, one of which reacts to a refresh with an edit of its own, in either connection order."
